@@ -6,7 +6,7 @@ use crate::prog::Walk;
 use crate::rng::Rng;
 
 fn storable_line(rng: &mut Rng) -> String {
-    match rng.below(15) {
+    match rng.below(16) {
         0 => format!("PRINT {}", rng.pick(&["007", ".5", "1.", "00.100", "123456789012345678901234567890", "0.000000000000000000001", "1e5", "3.14159265358979323846", "9007199254740993", "4.9406564584124654e-324", "1.7976931348623157", "100000000000000000000000", "0.1+0.2"])),
         1 => gen::data_statement(rng),
         2 => format!("DATA {}", rng.pick(&["hello \"there\"", "\"a\" ", "1,,2", " , ", "\"\"", "x\"y\"z, w", "inf, nan, -0, 1e400", "\"unterminated", "a:PRINT 1", "\"q\":PRINT 2", "é, \"日本\"", "\u{a0}\"x\"", "1,\u{3000}\"a,b\", END", "\x0b\"q, r\"", "\u{2003}\"em\" , \u{a0}7", "a\u{a0}, \u{a0}b", "  spaced  out  ", "1 2 3", "-", "+5, -.5, 5."])),
@@ -26,6 +26,13 @@ fn storable_line(rng: &mut Rng) -> String {
             format!("X{}Y", ops)
         }
         12 => gen::long_numeral(rng),
+        // a leading-point numeral right after an identifier (the only numerals that can follow one), incl. ones that round up to 1
+        13 => format!(
+            "{} {} {}",
+            rng.pick(&["PRINT", "X =", "IF", "PRINT A$;"]),
+            rng.pick(&["A", "B1", "SCORE", "N$", "Z9"]),
+            rng.pick(&[".99999999999999999999", ".9999999999999999", ".99999999999999995", ".99999999999999994", ".0", ".00", ".5", ".25", ".000000000000000000001", ".1", "." , ".999999999999999999999999999999999999999", ".5 THEN 10", ".99999999999999999999 THEN 10"])
+        ),
         11 => format!("X = {}", gen::long_numeral(rng)),
         _ => gen::token_soup(rng),
     }
